@@ -73,6 +73,11 @@ fn commands_sweep(rep: &Report) {
     let (cmds, _) = crate::c14::command_list(&mut ctx);
     const DECL: &str = "(declare-const a Bool)(declare-const b Bool)(declare-const x (_ BitVec 4))(declare-const m (Array (_ BitVec 2) (_ BitVec 4)))";
     for (k, (label, cmd)) in cmds.iter().enumerate() {
+        // `:opt` is no option of the reference front end (an unknown option is answered `unsupported`, which says
+        // nothing about the text): the quoted values are checked on set-info, which accepts any attribute
+        if label == "set-option-quoted" {
+            continue;
+        }
         rep.add("evaluations", 1);
         rep.add("commands", 1);
         let fail = |class: &str, what: String| {
